@@ -9,6 +9,7 @@ Two comparisons per case:
   correspondence  implementation == extracted model          -> out.disagreements
   oracle          implementation vs extracted specification  -> out.violations (with a signature)
 """
+import collections
 import struct
 
 from paho.mqtt.packettypes import PacketTypes
@@ -749,9 +750,107 @@ def run_subopts(ctx, out):
     out.stat("subopts_tuples", len(tuples))
 
 
+# ------------------------------------------------------------------ object histories
+# A Properties object is long-lived application state: it is reused for several packets, changed between them
+# (assignment, `del`, clear()), and the lists an application assigns to the repeatable properties stay the
+# application's.  pack() must be the specification's encoding of what the object holds NOW, and nothing the
+# application owns - nor another Properties object it gave the same list to - may change behind its back.
+# (Seeds S-C04-5: pack() memoised, the cache survived `del` / clear(); S-C17-5: the stored list extended in place.)
+HIST_POOL = [
+    ("UserProperty", lambda: [("a", "b")]), ("UserProperty", lambda: [("k", "v"), ("x", "y")]), ("UserProperty", lambda: ("t", "u")),
+    ("SubscriptionIdentifier", lambda: [5]), ("SubscriptionIdentifier", lambda: [7, 300]), ("SubscriptionIdentifier", lambda: 9),
+    ("ContentType", lambda: "text/x"), ("ContentType", lambda: "application/y"), ("CorrelationData", lambda: b"\x01\x02"),
+    ("MessageExpiryInterval", lambda: 60), ("MessageExpiryInterval", lambda: 61), ("PayloadFormatIndicator", lambda: 1),
+    ("ResponseTopic", lambda: "r/t"),
+]
+REPEATABLE = ("UserProperty", "SubscriptionIdentifier")
+
+
+def history_run(ops):
+    """ops: ("set", obj, pool index) | ("del", obj, name) | ("clear", obj) | ("pack", obj); two objects of packet type
+    PUBLISH; the pool values are created once and SHARED between all the assignments that name them.  Returns problems."""
+    import copy
+    pool = [mk() for _, mk in HIST_POOL]
+    frozen = copy.deepcopy(pool)
+    objs = [Properties(PacketTypes.PUBLISH), Properties(PacketTypes.PUBLISH)]
+    want = [collections.OrderedDict(), collections.OrderedDict()]
+    problems = []
+    for step, op in enumerate(ops):
+        try:
+            if op[0] == "set":
+                name, val = HIST_POOL[op[2]][0], pool[op[2]]
+                setattr(objs[op[1]], name, val)
+                v = copy.deepcopy(frozen[op[2]])
+                if name in REPEATABLE:
+                    v = v if isinstance(v, list) else [v]
+                    want[op[1]][name] = want[op[1]].get(name, []) + v
+                else:
+                    want[op[1]][name] = v
+            elif op[0] == "del":
+                if op[2] in want[op[1]]:
+                    delattr(objs[op[1]], op[2])
+                    del want[op[1]][op[2]]
+            elif op[0] == "clear":
+                objs[op[1]].clear()
+                want[op[1]].clear()
+            else:
+                fresh = Properties(PacketTypes.PUBLISH)
+                for n, v in want[op[1]].items():
+                    setattr(fresh, n, copy.deepcopy(v))
+                exp, got = bytes(fresh.pack()), bytes(objs[op[1]].pack())
+                if exp != got:
+                    problems.append(f"step {step}: pack() of object {op[1]} is {got.hex()}, the encoding of what it holds ({dict(want[op[1]])}) is {exp.hex()}")
+        except Exception as e:      # noqa: BLE001
+            problems.append(f"step {step}: {op} raised {e!r}")
+        if pool != frozen:
+            problems.append(f"step {step}: a value owned by the application changed: {[(a, b) for a, b in zip(pool, frozen) if a != b][:2]}")
+            pool = copy.deepcopy(frozen)
+        if problems:
+            break
+    return problems
+
+
+def run_histories(ctx, out):
+    rng = ctx.rng
+    names = sorted({n for n, _ in HIST_POOL})
+    fixed = [
+        [("set", 0, 6), ("set", 0, 0), ("pack", 0), ("clear", 0), ("pack", 0)],
+        [("set", 0, 8), ("set", 0, 9), ("pack", 0), ("del", 0, "CorrelationData"), ("pack", 0)],
+        [("set", 0, 1), ("set", 1, 1), ("set", 0, 0), ("pack", 1), ("pack", 0)],
+        [("set", 0, 3), ("set", 0, 4), ("set", 1, 3), ("pack", 1)],
+        [("set", 0, 0), ("pack", 0), ("set", 0, 1), ("pack", 0), ("del", 0, "UserProperty"), ("pack", 0), ("set", 0, 2), ("pack", 0)],
+    ]
+    hs = list(fixed)
+    for _ in range(ctx.n(600, 6000)):
+        h = []
+        for _ in range(rng.choice([3, 5, 8, 12])):
+            x = rng.random()
+            o = rng.randrange(2)
+            if x < 0.5:
+                h.append(("set", o, rng.randrange(len(HIST_POOL))))
+            elif x < 0.65:
+                h.append(("del", o, rng.choice(names)))
+            elif x < 0.72:
+                h.append(("clear", o))
+            else:
+                h.append(("pack", o))
+        h += [("pack", 0), ("pack", 1)]
+        hs.append(h)
+    for h in hs:
+        out.cases += 1
+        out.validated += 1
+        out.stat("object_histories")
+        pr = history_run(h)
+        if pr:
+            out.violations.append({"signature": "C17-object-history", "what": pr[0][:600],
+                                   "case": {"kind": "history", "ops": [list(o) for o in h]}})
+    out.notes.append(f"object histories: {len(hs)} sequences of assignment / del / clear() / pack() on two Properties objects sharing "
+                     "the application's list objects; pack() compared with the encoding of a fresh object holding the same values")
+
+
 def run(ctx, out):
     errors = []
-    for section in (run_vbi, run_reason, run_subopts, run_props):
+    for section in (run_vbi, run_reason, run_subopts, run_props, run_histories):
         try:
             section(ctx, out)
         except Exception:       # keep what the other sections found; the error is re-raised below
@@ -786,6 +885,9 @@ def replay(payload):
         o.seen = lambda *a, **k: None
         res = check_props(None, o, [(pt, assigns)], "replay")
         return (not o.violations and not o.disagreements), {"impl": res[0][0][:80], "violations": o.violations, "disagreements": o.disagreements}
+    if kind == "history":
+        pr = history_run([tuple(o) for o in case["ops"]])
+        return (not pr), {"problems": pr}
     if kind == "unpack":
         b = bytes.fromhex(case["bytes"])
         r = impl_unpack(case["pt"], b)
